@@ -510,7 +510,7 @@ def sigkill_conformance(task):
     mismatch = []
     for k in picks:
         fsseam.restore(d, pre)
-        env = dict(os.environ, PYTHONPATH="/repo:" + core.VERIF)
+        env = dict(os.environ, PYTHONPATH=core.REPO + ":" + core.VERIF)
         p = subprocess.run(
             [sys.executable, "-m", "xv.props.c10", "child", name, wl, str(k), d],
             env=env, cwd=core.VERIF, capture_output=True)
